@@ -102,9 +102,11 @@ class WriteEncoder:
         elif i < 256:
             data.append(248)
             self.writeInt8(i, data)
-        else:
+        elif i < 65536:
             data.append(249)
             self.writeInt16(i, data)
+        else:
+            raise ValueError("list too large to write; size=%d" % i)
 
     def writeToken(self, token, data):
         if token <= 255 and token >=0:
